@@ -205,6 +205,62 @@ fn conservation(o: &Opts, rep: &mut Report, only: Option<(bool, usize, usize)>) 
     }
 }
 
+/// (2a') the same counting loop while a deck plays a tape it cannot read (zero-length blocks) and the host goes on
+/// calling `emulate_frames` after every error: frames and offset still account for every executed T-state
+fn conservation_tape(o: &Opts, rep: &mut Report, only: Option<(bool, usize)>) {
+    for k in 0..o.n(12, 60) as usize {
+        let m128 = k % 2 == 1;
+        if let Some((m, kk)) = only {
+            if m != m128 || kk != k {
+                continue;
+            }
+        }
+        let l = frame_len(m128);
+        let mut e = emu(&Cfg::new(m128));
+        let mut tap: Vec<u8> = vec![];
+        match (k / 2) % 3 {
+            0 => {}
+            1 => tap.extend_from_slice(&[2, 0, 0xFF, 0xFF]),
+            _ => tap.extend_from_slice(&[3, 0, 0x00, 0x01, 0x01]),
+        }
+        for _ in 0..1 + k % 4 {
+            tap.extend_from_slice(&[0, 0]);
+        }
+        if k % 5 == 4 {
+            tap.extend_from_slice(&[2, 0, 0xFF, 0xFF]);
+        }
+        let _ = e.load_tape(rustzx_core::host::Tape::Tap(VAsset::new(tap.clone())));
+        e.play_tape();
+        load(&mut e, 0x8000, &[0xF3, 0x03, 0xC3, 0x01, 0x80]);
+        start(&mut e, 0x8000);
+        let want_frames = 3 + k % 3;
+        let (mut frames, mut calls, mut errors) = (0usize, 0usize, 0usize);
+        while frames < want_frames && calls < 400_000 {
+            if e.emulate_frames(Duration::from_secs(100)).is_err() {
+                errors += 1;
+            }
+            frames += e.verif_frames_count();
+            calls += 1;
+        }
+        let fc = e.verif_frame_clocks();
+        let cpu = e.verif_cpu();
+        let bc = cpu.regs.get_bc() as usize;
+        let pc = cpu.regs.get_pc();
+        rep.eval();
+        rep.class(format!("conservation with an unreadable tape {} kind={} errors={}", m128, (k / 2) % 3, errors.min(3)));
+        rep.count("programs", "counting loop while the deck reports errors");
+        let executed = 4 + 16 * bc - if pc == 0x8002 { 10 } else { 0 };
+        let case = format!("conservetape {} {}", if m128 { 128 } else { 48 }, k);
+        if (pc == 0x8001 || pc == 0x8002) && executed != frames * l + fc {
+            viol(rep, Kind::SpecViolated, "C05/conservation/tape-error",
+                format!("{} playing a tape of {} bytes with zero-length blocks ({} calls of emulate_frames, {} of them returned an error): program executed {} T but frames*L+offset = {}*{}+{} = {}",
+                    if m128 { "128K" } else { "48K" }, tap.len(), calls, errors, executed, frames, l, fc, frames * l + fc),
+                case, format!("{}", executed), format!("{}", frames * l + fc));
+            return;
+        }
+    }
+}
+
 struct RomPages(Vec<VAsset>);
 impl rustzx_core::host::RomSet for RomPages {
     type Asset = VAsset;
@@ -510,6 +566,7 @@ edge, INT level) clock observations + distinct program/slicing/offset cases".int
                 clock_level(o, &mut model, &mut rep, Some((m128, w, pre)));
             }
             Some("conserve") => conservation(o, &mut rep, Some((m128, n(2), n(3)))),
+            Some("conservetape") => conservation_tape(o, &mut rep, Some((m128, n(2)))),
             Some("ints") => interrupts(o, &mut rep, Some((m128, n(2) == 1, n(3)))),
             Some("window") => int_window(&mut rep, &mut model, Some((m128, n(2)))),
             Some("sys") => crate::sys::replay(o, &mut rep, "C05", text),
@@ -521,6 +578,7 @@ edge, INT level) clock observations + distinct program/slicing/offset cases".int
     }
     clock_level(o, &mut model, &mut rep, None);
     conservation(o, &mut rep, None);
+    conservation_tape(o, &mut rep, None);
     interrupts(o, &mut rep, None);
     int_window(&mut rep, &mut model, None);
     halted_overrun(&mut rep, None);
